@@ -43,6 +43,7 @@ def run(ctx):
     _tzid_forward(ctx)
     _tzp_contract(ctx)
     _provider_contract(ctx)
+    _tzid_of(ctx)
     from .. import codecmodel
     codecmodel.report(ctx, "C11/OWN", codecmodel.explore_params_ownership, codecmodel.OWN_LAWS,
                       m.cls("prop.vDatetime").loc(), 10)
@@ -199,6 +200,31 @@ def _utc_forced(ctx):
 
 
 # ---------------------------------------------------------------------------
+def _tzid_of(ctx):
+    """tzid_from_tzinfo itself (the function the analyser otherwise uses by contract), interpreted
+    on tzinfo models of both libraries: UTC gives 'UTC', every other zone - also one that is an
+    alias of UTC in the tz database, such as Etc/UTC - gives its own key, None gives None."""
+    m = ctx.model
+    f = m.func("timezone.tzid.tzid_from_tzinfo")
+    for prov in ("zoneinfo", "pytz"):
+        for label, tz, want in (("UTC", TZ("utc", "UTC", prov), "UTC"), ("Etc/UTC", TZ("zone", "Etc/UTC", prov), "Etc/UTC"),
+                                (ZONE, TZ("zone", ZONE, prov), ZONE), ("Etc/GMT+5", TZ("zone", "Etc/GMT+5", prov), "Etc/GMT+5"),
+                                ("no tzinfo", None, None)):
+            it = Interp(m, provider=prov)
+            try:
+                got = it.call(Closure(f), [tz], {})
+            except AbsRaise as e:
+                ctx.fail("C11/TZ-TAG", f"[{prov}] tzid_from_tzinfo({label})", f"raises {e.cls_name}", f.loc())
+                continue
+            except Unsupported as e:
+                raise AnalysisError(f"tzid_from_tzinfo({label}) under {prov} leaves the abstract interface: {e}")
+            got = got.strval if isinstance(got, Obj) and got.strval is not None else got
+            ctx.check(got == want, "C11/TZ-TAG", f"[{prov}] tzid_from_tzinfo({label})",
+                      f"tzid_from_tzinfo of the {prov} zone {label} is {got!r}, expected {want!r}: a value in "
+                      f"that zone would be written {'with Z and without its TZID' if got == 'UTC' else 'with TZID=' + repr(got)} "
+                      f"and read back in another zone", f.loc(), detail=repr(want))
+
+
 def _provider_contract(ctx):
     """One level below TZP: each provider's localize / localize_utc interpreted on top of the
     library's own operation (pytz: tz.localize(dt) / astimezone; zoneinfo: replace(tzinfo=) /
